@@ -179,6 +179,20 @@ func (p *c11Pod) labelPriority() int64 {
 	}
 	return int64(p.prio())
 }
+
+// the pod holds r by request and also has a container that declares no r at all
+func (p *c11Pod) hasHelperFor(r corev1.ResourceName) bool {
+	declared, missing := false, false
+	for _, c := range p.Containers {
+		if v, ok := c[r]; ok && v > 0 {
+			declared = true
+		} else if !ok {
+			missing = true
+		}
+	}
+	return declared && missing
+}
+
 func (p *c11Pod) sumReq(r corev1.ResourceName) int64 {
 	var s int64
 	for _, c := range p.Containers {
@@ -519,11 +533,19 @@ type c11Scene struct {
 
 func c11I64(v int64) *int64 { return &v }
 
-func c11GenScene(t *rapid.T) *c11Scene { return c11GenSceneOpt(t, false) }
+func c11GenScene(t *rapid.T) *c11Scene { return c11GenSceneOpt(t, c11ModeNormal) }
+
+const (
+	c11ModeNormal  = iota
+	c11ModeLarge   // 13-40 pods with long runs of ties
+	c11ModeHelpers // pods with extra containers that declare no request of the resource, amounts in single units
+)
 
 // large: 13-40 pods, nearly all eligible, two or three distinct priorities and mostly no sub-priority label / eviction
 // priority, so that long runs of candidates tie on every key but usage / request
-func c11GenSceneOpt(t *rapid.T, large bool) *c11Scene {
+func c11GenSceneOpt(t *rapid.T, mode int) *c11Scene {
+	large := mode == c11ModeLarge
+
 	s := &c11Scene{}
 	thUsed := rapid.SampledFrom([]int32{5999, 5999, 7999, 9999, 3999, 5500, 0, -1, 100000}).Draw(t, "evictEnabledPriorityThreshold")
 	thAlloc := rapid.SampledFrom([]int32{5999, 5999, 7999, 7999, 3999, 5500, 7500, 0}).Draw(t, "allocatableEvictPriorityThreshold")
@@ -553,6 +575,29 @@ func c11GenSceneOpt(t *rapid.T, large bool) *c11Scene {
 			}
 			return p
 		}), 13, 40).Draw(t, "manyPods")
+	} else if mode == c11ModeHelpers {
+		s.pods = rapid.SliceOfN(rapid.Custom(func(t *rapid.T) *c11Pod {
+			p := c11GenPod(t, pool, friendlyPrio, true, 1)
+			// helper containers (log agent, injected sidecar ...) that declare no request of the evicted resource at all
+			if rapid.IntRange(0, 4).Draw(t, "hasHelperContainers") > 0 {
+				n := rapid.IntRange(1, 2).Draw(t, "helperContainers")
+				for i := 0; i < n; i++ {
+					h := map[corev1.ResourceName]int64{}
+					if rapid.Bool().Draw(t, "helperDeclaresOtherResource") {
+						h[apiext.BatchMemory] = rapid.Int64Range(0, 4).Draw(t, "helperOtherAmount")
+					}
+					if rapid.Bool().Draw(t, "helperFirst") {
+						p.Containers = append([]map[corev1.ResourceName]int64{h}, p.Containers...)
+					} else {
+						p.Containers = append(p.Containers, h)
+					}
+				}
+			}
+			if rapid.IntRange(0, 7).Draw(t, "hasUsageSample") > 0 && !p.HasMetric {
+				p.HasMetric, p.Metric = true, rapid.Int64Range(0, 8).Draw(t, "usage")
+			}
+			return p
+		}), 2, 8).Draw(t, "podsWithHelpers")
 	} else {
 		s.pods = rapid.SliceOfN(rapid.Custom(func(t *rapid.T) *c11Pod { return c11GenPod(t, pool, friendlyPrio, friendlyCase, c11Unit) }), 1, 8).Draw(t, "pods")
 	}
@@ -607,7 +652,11 @@ func c11GenSceneOpt(t *rapid.T, large bool) *c11Scene {
 		case 1:
 			alloc[r] = *resource.NewQuantity(0, resource.DecimalSI)
 		default:
-			alloc[r] = *resource.NewQuantity(rapid.Int64Range(1, 14).Draw(t, "allocAmount-"+string(r))*c11Unit, resource.DecimalSI)
+			allocUnit := int64(c11Unit)
+			if mode == c11ModeHelpers {
+				allocUnit = 1 // requests are drawn in single milli-cores in this mode
+			}
+			alloc[r] = *resource.NewQuantity(rapid.Int64Range(1, 14).Draw(t, "allocAmount-"+string(r))*allocUnit, resource.DecimalSI)
 		}
 	}
 	if rapid.IntRange(0, 3).Draw(t, "smallNativeAllocatable") == 0 {
@@ -727,19 +776,23 @@ func c11Names(l []*qosmanagerUtil.PodEvictInfo) []string {
 
 // ---------------------------------------------------------------- (1) victim lists: eligibility and published order
 
-func TestVerifC11CPULists(t *testing.T) { c11RunLists(t, "cpuLists", false) }
+func TestVerifC11CPULists(t *testing.T) { c11RunLists(t, "cpuLists", c11ModeNormal) }
 
 // the same oracle on candidate lists of 13-40 pods with long runs of ties on the priority keys
-func TestVerifC11CPUListsLarge(t *testing.T) { c11RunLists(t, "cpuListsLarge", true) }
+func TestVerifC11CPUListsLarge(t *testing.T) { c11RunLists(t, "cpuListsLarge", c11ModeLarge) }
 
-func c11RunLists(t *testing.T, unit string, large bool) {
+// the same oracle on pods with helper containers that declare no request of the resource (a pod's request is the sum
+// over the containers that declare one)
+func TestVerifC11CPUListsHelpers(t *testing.T) { c11RunLists(t, "cpuListsHelpers", c11ModeHelpers) }
+
+func c11RunLists(t *testing.T, unit string, mode int) {
 	rec := vk.New(t, "C11", unit)
 	saved := metriccache.DefaultAggregateResultFactory
 	defer func() { metriccache.DefaultAggregateResultFactory = saved }()
 	rapid.Check(t, func(t *rapid.T) {
 		c := rec.Begin()
 		defer c.End()
-		s := c11GenSceneOpt(t, large)
+		s := c11GenSceneOpt(t, mode)
 		byName := map[string]*c11Pod{}
 		for _, p := range s.pods {
 			byName[p.Name] = p
@@ -931,6 +984,13 @@ func c11RunLists(t *testing.T, unit string, large bool) {
 			}
 		}
 		c.ClassIf(len(s.pods) == 0, "no-pods")
+		for _, info := range lists[2].got {
+			if q := byName[info.Pod.Name]; q != nil {
+				if rn, _ := q.cpuRequest(); q.hasHelperFor(rn) {
+					c.Class("by-request-list-holds-pod-with-request-less-helper-container")
+				}
+			}
+		}
 		c.ClassIf(maxListed > 12, "a-list-with-more-than-12-candidates")
 		c.ClassIf(maxTieRun >= 4, "list>12-with-4-or-more-candidates-tied-on-all-priority-keys")
 		c.ClassIf(nListed >= 2, "two-or-more-listed")
@@ -965,8 +1025,13 @@ type c11E2ETask struct {
 
 var c11CPURes = []corev1.ResourceName{corev1.ResourceCPU, apiext.BatchCPU, apiext.MidCPU}
 
-func TestVerifC11CPUEndToEnd(t *testing.T) {
-	rec := vk.New(t, "C11", "cpuEndToEnd")
+func TestVerifC11CPUEndToEnd(t *testing.T) { c11RunE2E(t, "cpuEndToEnd", c11ModeNormal) }
+
+// end to end with helper containers and single-unit amounts: the victims' real requests often hit the target exactly
+func TestVerifC11CPUEndToEndHelpers(t *testing.T) { c11RunE2E(t, "cpuEndToEndHelpers", c11ModeHelpers) }
+
+func c11RunE2E(t *testing.T, unit string, mode int) {
+	rec := vk.New(t, "C11", unit)
 	savedFactory := metriccache.DefaultAggregateResultFactory
 	feats := []featuregate.Feature{features.BECPUEvict, features.CPUAllocatableEvict, features.CPUEvict}
 	savedGates := map[string]bool{}
@@ -980,7 +1045,7 @@ func TestVerifC11CPUEndToEnd(t *testing.T) {
 	rapid.Check(t, func(t *rapid.T) {
 		c := rec.Begin()
 		defer c.End()
-		s := c11GenScene(t)
+		s := c11GenSceneOpt(t, mode)
 		gates := map[string]bool{}
 		var on []featuregate.Feature
 		for _, f := range feats {
@@ -1256,6 +1321,26 @@ func TestVerifC11CPUEndToEnd(t *testing.T) {
 			}
 		}
 		c.Class(fmt.Sprintf("tasks:%d", len(tasks)))
+		if tk := taskOf[string(features.CPUAllocatableEvict)]; tk != nil {
+			helperVictim, exact := false, false
+			for _, v := range victims {
+				if rn, _ := v.cpuRequest(); v.hasHelperFor(rn) && tk.target[rn] > 0 {
+					helperVictim = true
+				}
+			}
+			for r, tv := range tk.target {
+				var have int64
+				for _, v := range victims {
+					have += lo(tk, v, r)
+				}
+				if tv > 0 && have == tv {
+					exact = true
+				}
+			}
+			c.ClassIf(helperVictim, "allocatable-victim-with-request-less-helper-container")
+			c.ClassIf(exact, "allocatable-target-hit-exactly-by-the-victims-requests")
+			c.ClassIf(helperVictim && exact, "allocatable:helper-container-victim+exact-target")
+		}
 		c.ClassIf(nEvict > 0, "some-eviction")
 		c.ClassIf(nEvict >= 2, "two-or-more-evict-calls")
 		c.ClassIf(sawFail, "eviction-call-failed")
